@@ -82,7 +82,7 @@ def install_dispatch_overrides(ex, st):
     for i in range(NRULES - 2, -1, -1):
         inner = z3.If(verdicts[i], allows[i], inner)
     hasfeat = z3.Bool('connector_has_feature')
-    sym.update(outer=outer, inner=inner, hasfeat=hasfeat, verdicts=verdicts, allows=allows)
+    sym.update(outer=outer, inner=inner, hasfeat=hasfeat, verdicts=verdicts, allows=allows, rules_cell=rules_cell)
 
     def rules(ctx):
         ctx.st.trace.append(('rules()',))
